@@ -8,7 +8,7 @@ from .common import parse_reply, parse_list, hexs
 from .gen_tables import gen_column
 
 KINDS = ["bool", "int8", "int16", "int32", "int64", "uint8", "uint16", "uint32", "uint64", "float32", "float64", "float_nan",
-         "str", "bytes", "dt_ns", "dt_us", "dt_ms", "dt_s", "dt_tz", "td", "cat_str", "cat_int", "Int64", "Int32", "UInt16", "boolean"]
+         "str", "bytes", "dt_ns", "dt_us", "dt_ms", "dt_s", "dt_tz", "td", "cat_str", "cat_int", "Int64", "Int32", "UInt16", "boolean", "td_ms", "td_s"]
 ROWS = [0, 1, 7, 8, 9, 63, 64, 65]
 ROWS_BIG = [8191, 8192, 8193]
 CODECS = [None, None, "SNAPPY", "GZIP", "ZSTD", "LZ4", "BROTLI"]
@@ -18,6 +18,8 @@ def gen_case(rng, idx, quick=True):
     n = rng.choice(ROWS + ([rng.randrange(2, 200)] * 2) + (ROWS_BIG if (not quick and rng.random() < 0.3) else []))
     if idx < len(ROWS):
         n = ROWS[idx]
+    if len(ROWS) <= idx < len(KINDS):
+        n = max(n, 7)          # the directed per-kind cases hold rows
     B3 = 2 * len(KINDS) + 15 + 6 + 10      # first of the RangeIndex cases (see below)
     if B3 <= idx < B3 + 5:
         n = max(n, 4)
@@ -92,7 +94,7 @@ def gen_case(rng, idx, quick=True):
     if forced_hn is not None:
         hn = forced_hn
     # has_nulls=False is only legal when no column that cannot express a missing value has one
-    nullable_free = all(pats[k] == "none" or k in ("float32", "float64", "float_nan", "dt_ns", "dt_us", "dt_ms", "dt_s", "dt_tz", "td") for k in kinds)
+    nullable_free = all(pats[k] == "none" or k in ("float32", "float64", "float_nan", "dt_ns", "dt_us", "dt_ms", "dt_s", "dt_tz", "td", "td_ms", "td_s") for k in kinds)
     if hn == "list":
         opts["has_nulls"] = [c for c in df.columns if c.split("_", 1)[-1] in ("str", "bytes", "Int64", "Int32", "UInt16", "boolean", "cat_str", "cat_int", "cat_wide")
                              or rng.random() < 0.5]
@@ -237,7 +239,7 @@ def expected_cells(series, kind, meta, nan_is_null):
             else:
                 out.append(struct.unpack("<Q", struct.pack("<d", f))[0])
             continue
-        if is_null(v) and (kind.startswith("dt") or kind == "td") and not nan_is_null:
+        if is_null(v) and (kind.startswith("dt") or kind.startswith("td")) and not nan_is_null:
             # REQUIRED time column: NaT is kept as the documented sentinel (int64 minimum); INT96 has none: don't care
             out.append((1 << 63) if ptype == 2 else ("dontcare",))
             continue
@@ -264,8 +266,8 @@ def expected_cells(series, kind, meta, nan_is_null):
             else:
                 factor = {1: 10 ** 6, 2: 10 ** 3, 3: 1}.get(unit, {9: 10 ** 6, 10: 10 ** 3}.get(conv, 1))
                 out.append((ns // factor) % (1 << 64) if ns % factor == 0 else ("not-representable", ns, factor))
-        elif kind == "td":
-            ns = int(pd.Timedelta(v).value)
+        elif kind.startswith("td"):
+            ns = int(pd.Timedelta(v).as_unit("ns").value)
             out.append((ns // 1000) % (1 << 64))
         else:
             out.append(("?", kind))
